@@ -52,6 +52,11 @@ Definition put_continue (s : cstate) (ps : list pent) (t c : N) (m : option mput
     {| lookups := add_lookup t (lookups s); puts := insert_put {| pe_target := t; pe_started := false; pe_mut := m |} ps;
        gsend := gsend s; psend := (t, c) :: psend s |}.
 
+(* the very same signed item is already being put: the in-flight query serves this caller too
+   (Core::is_identical_to_inflight_put; before the F27 repair the query was replaced) *)
+Definition park_put (s : cstate) (t c : N) : cstate :=
+  {| lookups := lookups s; puts := puts s; gsend := gsend s; psend := (t, c) :: psend s |}.
+
 Definition step_put (s : cstate) (t c : N) (m : option mput) (cached : bool) : cstate * list oc :=
   match m with
   | Some req =>
@@ -59,7 +64,12 @@ Definition step_put (s : cstate) (t c : N) (m : option mput) (cached : bool) : c
       match check_concurrency inflight req with
       | CReject e => (s, [OPut c (OutErr (EConcurrency e))])
       | CSupersede => (put_continue s (remove_put t (puts s)) t c m cached, [])
-      | CAccept => (put_continue s (puts s) t c m cached, [])
+      | CAccept =>
+          match inflight with
+          | Some inf => if bytes_eqb (mp_sig req) (mp_sig inf) then (park_put s t c, [])
+                        else (put_continue s (puts s) t c m cached, [])
+          | None => (put_continue s (puts s) t c m cached, [])
+          end
       end
   | None => (put_continue s (puts s) t c m cached, [])
   end.
